@@ -200,6 +200,9 @@ def run(ctx):
     ok = ok and bool(zero) and all(p.retval == N.const(0) for p in zero)
     ctx.ob("C13.R4", fi, ok, "FlagsEnum._encode starts from 0 and combines the labels of the string form and of the dict form with bitwise or (labels that share bits, or are repeated, give the union of the bits; no label gives 0)", key="label union")
     flag_test(ctx, "C13.R4")
+    from . import C12 as _C12
+    for _cls in ("Enum", "FlagsEnum"):
+        _C12.enum_merge(ctx, "C13.R4", _cls)          # labels taken from an enum class: canonical members only (shared with C12.R2)
     # table construction
     fi, paths = own_method_paths(ctx, "Enum", "__init__")
     w = {}
